@@ -76,6 +76,8 @@ func opEvs(src string, data *GV) string     { return "(EVS " + hx(src) + " " + d
 func opEvf(path string, data *GV) string    { return "(EVF " + hx(path) + " " + dataTerm(data) + ")" }
 func opReg(ty, name string, fid int) string { return fmt.Sprintf("(REG %s %s %d)", ty, hx(name), fid) }
 func opReset() string                       { return "(RESET)" }
+func opWrite(path, content string) string   { return "(WRITE " + hx(path) + " " + hx(content) + ")" }
+func opRm(path string) string               { return "(RM " + hx(path) + ")" }
 
 func dataTerm(d *GV) string {
 	if d == nil {
@@ -327,6 +329,37 @@ func casesC06(g *Gen) []*Case {
 		c := histCase("reserve_in_loop", t, []string{opNew("tpl", ".tw", "", false), opStr("p", d), opStr("p", d)}, "NewTemplate; String(p) twice")
 		c.Oracle = expectResults(map[int]func(string) string{0: wantNewOK, 1: wantOK(form.want), 2: wantOK(form.want)})
 		cs = append(cs, c)
+	}
+	// reserves in every kind of block of the layout, including the @else parts
+	{
+		t := newTree()
+		t.files["tpl/layouts/e.tw"] = `@each(q in none)x@else<@reserve("a")>@end@for(i = 0; i < 0; i++)y@else[@reserve("b")]@end@if(false)z@elseif(false)w@else{@reserve("c")}@end@if(false)v@elseif(true)(@reserve("d"))@end`
+		t.files["tpl/p.tw"] = `@use("~e")@insert("a")A@end@insert("b", "B")@insert("c")C@end@insert("d", 4)`
+		t.files["tpl/q.tw"] = `@use("~e")@insert("c")only c@end`
+		c := histCase("reserve_in_else_blocks", t, []string{opNew("tpl", ".tw", "", false), opStr("p", gvMap("none", gvList())), opStr("q", gvMap("none", gvList()))}, "NewTemplate; String(p); String(q)")
+		c.Oracle = expectResults(map[int]func(string) string{0: wantNewOK, 1: wantOK("<A>[B]{C}(4)"), 2: wantOK("<>[]{only c}()")})
+		cs = append(cs, c)
+	}
+	// several pages share one layout whose reserves sit in nested blocks: every page shows its own inserts
+	// (and nothing where it has none), in whatever order the pages are rendered
+	{
+		t := newTree()
+		t.files["tpl/layouts/s.tw"] = `<@reserve("top")>@if(true)[@reserve("mid")]@end@each(q in [1, 2])(@reserve("row"))@end`
+		t.files["tpl/a.tw"] = `@use("~s")@insert("top")a-top@end@insert("mid")a-mid@end@insert("row")a{{ q }}@end`
+		t.files["tpl/b.tw"] = `@use("~s")@insert("top", "b-top")`
+		t.files["tpl/c.tw"] = `@use("~s")@insert("mid", "c-mid")@insert("row", q * 10)`
+		wa, wb, wc := "<a-top>[a-mid](a1)(a2)", "<b-top>[]()()", "<>[c-mid](10)(20)"
+		for _, ord := range [][]string{{"a", "b", "c"}, {"c", "b", "a"}, {"b", "a", "b", "c", "a"}} {
+			ops := []string{opNew("tpl", ".tw", "", false)}
+			checks := map[int]func(string) string{0: wantNewOK}
+			for _, n := range ord {
+				checks[len(ops)] = wantOK(map[string]string{"a": wa, "b": wb, "c": wc}[n])
+				ops = append(ops, opStr(n, nil))
+			}
+			c := histCase("pages_share_layout", t, ops, "NewTemplate; String of "+strings.Join(ord, ", "))
+			c.Oracle = expectResults(checks)
+			cs = append(cs, c)
+		}
 	}
 	// names with dots in them (layout, page), next to a decoy file without the extension
 	for _, ext := range []string{".tw", ".tw.html"} {
@@ -854,6 +887,35 @@ func casesC13(g *Gen) []*Case {
 			cs = append(cs, c)
 		}
 	}
+	// a fault inside the argument form / the block form of an @insert is a fault of the page
+	for _, form := range []string{"@insert(\"a\", nosuch)", "@insert(\"a\")\n{{ nosuch }}@end", "@insert(\"a\", 1 / 0)", "@insert(\"a\", {k: 1}.zz)"} {
+		for _, pre := range []string{"", "\n\n", "text\n{{-- c\n--}}\n"} {
+			t := newTree()
+			t.files["tpl/layouts/l.tw"] = "<L>\n\n\n@reserve(\"a\")\n</L>"
+			t.files["tpl/sub/p.tw"] = "@use(\"~l\")" + pre + form
+			line := strings.Count(pre, "\n") + 1
+			if strings.Contains(form, "\n{{") {
+				line++
+			}
+			c := histCase("insert_fault_is_the_pages", t, []string{opNew("tpl", ".tw", "", false), opStr("sub/p", nil)}, "NewTemplate; String(sub/p)")
+			c.Oracle = expectResults(map[int]func(string) string{0: wantNewOK, 1: wantErrAt(line, "tpl/sub/p.tw", "")})
+			cs = append(cs, c)
+		}
+	}
+	// a load that failed leaves nothing behind: the lines of the next load are exact
+	for _, bad := range []string{"{{ 1 # }}\n", "{{ 1 # }}\n\n", "a\n{{ $ }}", "{{-- c\n", "{{ \"unterminated\n"} {
+		t1 := newTree()
+		t1.files["bad/x.tw"] = bad
+		t2 := newTree()
+		t2.files["bad/x.tw"] = bad
+		t2.files["tpl/a.tw"] = "l1\nl2\n{{ 1 + }}"
+		t2.files["good/b.tw"] = "l1\n{{ nosuch }}"
+		ops := []string{opNew("bad", ".tw", "", false), opNew("tpl", ".tw", "", false), opNew("bad", ".tw", "", false), opNew("good", ".tw", "", false), opStr("b", nil)}
+		c := histCase("lines_after_failed_load", t2, ops, "NewTemplate(bad); NewTemplate(tpl); NewTemplate(bad); NewTemplate(good); String(b)")
+		c.Oracle = expectResults(map[int]func(string) string{0: wantErr(""), 1: wantErrAt(3, "tpl/a.tw", ""), 2: wantErr(""), 3: wantNewOK, 4: wantErrAt(2, "good/b.tw", "nosuch")})
+		cs = append(cs, c)
+		_ = t1
+	}
 	// page faults keep their own path whatever was rendered before on the same Template
 	{
 		t := newTree()
@@ -1003,6 +1065,36 @@ func casesC18(g *Gen) []*Case {
 		t2.files["tpl/shared/base.tw"] = "<B>@component(\"nosuchcomp\")</B>"
 		c2 := histCase("plain_file_used_as_layout", t2, []string{opNew("tpl", ".tw", "", false)}, "NewTemplate (the used file refers to a missing component)")
 		c2.Oracle = expectResults(map[int]func(string) string{0: wantErr("nosuchcomp")})
+		cs = append(cs, c2)
+	}
+	// the tree changes between two loads: every load sees the tree as it is then
+	{
+		t := newTree()
+		t.files["tpl/home.tw"] = "home"
+		t.files["tpl/deep/er/old.tw"] = "old"
+		ops := []string{opNew("tpl", ".tw", "", false), opStr("home", nil),
+			opWrite("tpl/deep/er/added.tw", "added {{ 1 + 1 }}"), opNew("tpl", ".tw", "", false), opStr("deep/er/added", nil), opStr("deep/er/old", nil),
+			opRm("tpl/deep/er/old.tw"), opNew("tpl", ".tw", "", false), opStr("deep/er/old", nil), opStr("deep/er/added", nil),
+			opWrite("tpl/deep/er/added.tw", "changed"), opNew("tpl", ".tw", "", false), opStr("deep/er/added", nil)}
+		c := histCase("tree_changes_between_loads", t, ops, "NewTemplate; add a nested file; NewTemplate; remove a nested file; NewTemplate; change a file; NewTemplate")
+		c.Oracle = expectResults(map[int]func(string) string{0: wantNewOK, 1: wantOK("home"), 3: wantNewOK, 4: wantOK("added 2"), 5: wantOK("old"),
+			7: wantNewOK, 8: wantErr("template not found"), 9: wantOK("added 2"), 11: wantNewOK, 12: wantOK("changed")})
+		cs = append(cs, c)
+	}
+	// one missing component / one broken layout used by many pages: loading fails (and returns) with that fault
+	for _, n := range []int{9, 12, 40} {
+		t := newTree()
+		t2 := newTree()
+		t2.files["tpl/layouts/broken.tw"] = "<L>{{ 1 + }}@reserve(\"x\")</L>"
+		for i := 0; i < n; i++ {
+			t.files[fmt.Sprintf("tpl/p%02d.tw", i)] = "page @component(\"nosuchcomp\")"
+			t2.files[fmt.Sprintf("tpl/p%02d.tw", i)] = "@use(\"~broken\")@insert(\"x\")i@end"
+		}
+		c := histCase("many_pages_one_fault", t, []string{opNew("tpl", ".tw", "", false)}, fmt.Sprintf("NewTemplate: %d pages use a missing component", n))
+		c.Oracle = expectResults(map[int]func(string) string{0: wantErr("nosuchcomp")})
+		cs = append(cs, c)
+		c2 := histCase("many_pages_one_fault", t2, []string{opNew("tpl", ".tw", "", false)}, fmt.Sprintf("NewTemplate: %d pages use a layout with a syntax error", n))
+		c2.Oracle = expectResults(map[int]func(string) string{0: wantErr("")})
 		cs = append(cs, c2)
 	}
 	// fault enumeration on a valid tree: every file x {truncated at every prefix, garbage, dangling symlink, directory in its place, deleted}
